@@ -38,4 +38,4 @@ require (
 	google.golang.org/protobuf v1.36.6 // indirect
 )
 
-replace github.com/semafind/semadb => /tmp/ag/c14/repo
+replace github.com/semafind/semadb => /repo
